@@ -206,40 +206,42 @@ func (k c19Key) String() string {
 
 // c19Expected maps the diagnostics of P through the token correspondence into P'.
 // ambiguous = number of diagnostics whose location is not on a token (inside a gap).
-func c19Expected(b *c19Base, v *c19Variant, diags []core.Diag) (keys []c19Key, onToken, ambiguous int) {
+func c19Expected(b *c19Base, v *c19Variant, diags []core.Diag) (keys [][]c19Key, onToken, ambiguous int) {
 	for _, d := range diags {
 		k := c19Key{sev: d.Severity, code: d.Code, msg: d.Message}
-		if d.Line == 0 {
-			keys = append(keys, k)
+		if d.Line == 0 || d.File == "" {
+			// no location (an empty file name with 1:1 is the emitter's rendering of "nowhere")
+			keys = append(keys, []c19Key{k})
 			continue
 		}
 		off := offsetOf(b.src, d.Line, d.Col)
-		newOff := -1
+		var cands []int
 		if off >= 0 {
 			for i, t := range b.toks {
-				if off >= t.Start && off < t.End || (off == t.Start && t.Start == t.End) {
-					newOff = off + v.shift[i]
-					break
+				if (off >= t.Start && off < t.End) || (off == t.Start && t.Start == t.End) {
+					cands = append(cands, off+v.shift[i])
 				}
-			}
-			if newOff < 0 {
-				for i, t := range b.toks {
-					// exactly at the end of a token (and not at the start of the next one)
-					if off == t.End && t.End > t.Start {
-						newOff = off + v.shift[i]
-						break
-					}
+				// exactly at the end of a token: when the next token starts right there the base
+				// location is ambiguous (end of one, start of the other) and both images are allowed
+				if off == t.End && t.End > t.Start {
+					cands = append(cands, off+v.shift[i])
 				}
 			}
 		}
-		if newOff < 0 {
+		if len(cands) == 0 {
 			ambiguous++
 			k.line, k.col = -1, -1
-		} else {
-			onToken++
-			k.line, k.col = posModel(v.src, newOff)
+			keys = append(keys, []c19Key{k})
+			continue
 		}
-		keys = append(keys, k)
+		onToken++
+		var alts []c19Key
+		for _, no := range cands {
+			a := k
+			a.line, a.col = posModel(v.src, no)
+			alts = append(alts, a)
+		}
+		keys = append(keys, alts)
 	}
 	return
 }
@@ -256,26 +258,53 @@ func c19Actual(diags []core.Diag) []c19Key {
 	var out []c19Key
 	for _, d := range diags {
 		k := c19Key{sev: d.Severity, code: d.Code, msg: d.Message, line: d.Line, col: d.Col}
+		if d.File == "" {
+			k.line, k.col = 0, 0
+		}
 		out = append(out, k)
 	}
 	return out
 }
 
-// c19DiffDiags compares expected and actual diagnostics as multisets; diagnostics whose base
-// location is in a gap are matched on (severity, code, message) only.
-func c19DiffDiags(exp, act []c19Key) string {
+// c19DiffDiags compares expected and actual diagnostics as multisets; each expected diagnostic
+// carries one or two admissible positions; diagnostics whose base location is in a gap are
+// matched on (severity, code, message) only.
+func c19DiffDiags(exp [][]c19Key, act []c19Key) string {
 	am := c19Multiset(act)
 	var loose []c19Key
 	var missing []string
-	for _, e := range exp {
-		if e.line == -1 {
-			loose = append(loose, e)
+	// unambiguous ones first, so that an ambiguous one cannot steal their match
+	order := make([]int, 0, len(exp))
+	for i := range exp {
+		if len(exp[i]) == 1 {
+			order = append(order, i)
+		}
+	}
+	for i := range exp {
+		if len(exp[i]) != 1 {
+			order = append(order, i)
+		}
+	}
+	for _, i := range order {
+		alts := exp[i]
+		if alts[0].line == -1 {
+			loose = append(loose, alts[0])
 			continue
 		}
-		if am[e] > 0 {
-			am[e]--
-		} else {
-			missing = append(missing, e.String())
+		matched := false
+		for _, e := range alts {
+			if am[e] > 0 {
+				am[e]--
+				matched = true
+				break
+			}
+		}
+		if !matched {
+			var ss []string
+			for _, e := range alts {
+				ss = append(ss, e.String())
+			}
+			missing = append(missing, strings.Join(ss, " or "))
 		}
 	}
 	for _, e := range loose {
